@@ -245,6 +245,10 @@ def gen_cases(rng, tier, h):
     big = [("ppm", 640, 600), ("pgm", 1200, 950), ("pf", 520, 520), ("pf3", 300, 310), ("pf3a", 310, 300), ("pf4", 270, 260)]
     for fmt, w, hh in (big if not quick else [big[0], rng.pick(big[1:])]):
         cases.append(["imgpat %s %d %d %d" % (fmt, w, hh, rng.randrange(1 << 20))])
+    # the same format written from several threads at once, each thread its own image and file
+    for fmt, wpp in (FORMATS if not quick else [rng.pick(FORMATS), rng.pick(FORMATS)]):
+        cases.append(["imgmt %s %d %d %d %d %d" % (fmt, rng.pick([33, 64, 100]), rng.pick([20, 40]), rng.randrange(1 << 20),
+                                                rng.pick([2, 4]), 6 if quick else 24)])
     # every format at the corner sizes
     for fmt, wpp in FORMATS:
         cases.append([_img(rng, fmt, wpp, w, hh) for (w, hh) in ((1, 1), (1, 2), (2, 1), (1, 5), (5, 1), (2, 3), (3, 2), (4, 3))])
@@ -256,7 +260,7 @@ def nontrivial(case):
         w = l.split()
         if w[0] in ("save", "saveseq", "save2"):
             return True
-        if w[0] in ("img", "imgpat") and int(w[2]) * int(w[3]) >= 2:
+        if w[0] in ("img", "imgpat", "imgmt") and int(w[2]) * int(w[3]) >= 2:
             return True
     return False
 
